@@ -303,8 +303,11 @@ impl Tablet {
     fn update_stale_nodes(&mut self, recreated_nodes: &HashMap<Uuid, Arc<Node>>) {
         let mut any_updated = false;
         for (node, _) in self.replicas.all.iter_mut() {
-            if let Some(new_node) = recreated_nodes.get(&node.host_id) {
-                assert!(!Arc::ptr_eq(new_node, node));
+            // The tablet may already hold the new object: if it had unknown replicas,
+            // they were re-resolved against the new nodes earlier in the same maintenance.
+            if let Some(new_node) = recreated_nodes.get(&node.host_id)
+                && !Arc::ptr_eq(new_node, node)
+            {
                 any_updated = true;
                 *node = Arc::clone(new_node);
             }
